@@ -8,7 +8,9 @@ import (
 	"fmt"
 	"iter"
 	"reflect"
+	"runtime"
 	"sort"
+	"strings"
 )
 
 // Point is one choice point of an execution.
@@ -44,11 +46,53 @@ func End() { cur = nil }
 // Active reports whether an execution is being explored.
 func Active() bool { return cur != nil }
 
+// CallerPrefix is the import-path prefix of the code under test whose call sites are attached to choice points that
+// occur inside the dependency ("" = off). A point "set/set.go" reached from emerge's golang.go:180 becomes
+// "set/set.go@internal/generate/golang/golang.go:180", so that explorations can treat it like a point of /repo.
+var CallerPrefix = "github.com/gardenbed/emerge/internal/"
+
+func callerSite() string {
+	if CallerPrefix == "" {
+		return ""
+	}
+	var pcs [24]uintptr
+	n := runtime.Callers(3, pcs[:])
+	frames := runtime.CallersFrames(pcs[:n])
+	for {
+		f, more := frames.Next()
+		// only DIRECT use counts: between the choice point and the line of the code under test there may be
+		// frames of the dependency's container packages (and of this package), nothing else
+		direct := false
+		for _, p := range []string{"github.com/moorara/algo/set.", "github.com/moorara/algo/symboltable.", "github.com/moorara/algo/sort.",
+			"github.com/moorara/algo/generic.", "github.com/moorara/algo/list.", "github.com/gardenbed/emerge/verif/rt.", "iter."} {
+			if strings.HasPrefix(f.Function, p) {
+				direct = true
+			}
+		}
+		if !direct && !strings.HasPrefix(f.Function, CallerPrefix) {
+			return ""
+		}
+		if strings.HasPrefix(f.Function, CallerPrefix) {
+			file := f.File
+			if i := strings.Index(file, "/internal/"); i >= 0 {
+				file = file[i+1:]
+			}
+			return fmt.Sprintf("@%s:%d", file, f.Line)
+		}
+		if !more {
+			return ""
+		}
+	}
+}
+
 // choose returns the alternative to take at a point with the given menu size.
 func choose(site string, arity int) int {
 	e := cur
 	if e == nil || arity <= 1 {
 		return 0
+	}
+	if !strings.HasPrefix(site, "internal/") && site != "sched" {
+		site += callerSite()
 	}
 	occ := e.perSite[site]
 	e.perSite[site] = occ + 1
@@ -73,20 +117,21 @@ func choose(site string, arity int) int {
 // freeNext marks the next recorded point as free of deviation cost.
 var freeNext bool
 
-// menu(n) is the number of permutations offered for n elements: all n! for n <= 4; otherwise identity, reverse,
-// "move element i to the front" for i = 1..n-1, and "swap the last two".
+// menu(n) is the number of permutations offered for n elements: all n! for n <= 5; otherwise a fixed, deterministic
+// list: identity, reverse, "move element i to the front" (n-1), "move element i to the back" (n-1), adjacent
+// transpositions (n-1), rotations (n-2), and 48 further permutations generated once from a fixed seed.
 func menu(n int) int {
 	switch {
 	case n <= 1:
 		return 1
-	case n <= 4:
+	case n <= 5:
 		f := 1
 		for i := 2; i <= n; i++ {
 			f *= i
 		}
 		return f
 	}
-	return n + 2
+	return 2 + 3*(n-1) + (n - 2) + 48
 }
 
 // perm returns permutation number c of n elements (0 = identity).
@@ -98,7 +143,7 @@ func perm(n, c int) []int {
 	if c == 0 {
 		return p
 	}
-	if n <= 4 {
+	if n <= 5 {
 		// c-th permutation in lexicographic order (factorial number system)
 		avail := append([]int{}, p...)
 		f := 1
@@ -117,18 +162,37 @@ func perm(n, c int) []int {
 		}
 		return out
 	}
+	c-- // 0-based among the non-identity permutations
 	switch {
-	case c == 1:
+	case c == 0: // reverse
 		for i, j := 0, n-1; i < j; i, j = i+1, j-1 {
 			p[i], p[j] = p[j], p[i]
 		}
-	case c <= n:
-		k := c - 1 // move element k (1..n-1) to the front
+	case c < 1+(n-1): // move element k (1..n-1) to the front
+		k := c
 		v := p[k]
 		copy(p[1:k+1], p[0:k])
 		p[0] = v
-	default:
-		p[n-1], p[n-2] = p[n-2], p[n-1]
+	case c < 1+2*(n-1): // move element k (0..n-2) to the back
+		k := c - (1 + (n - 1))
+		v := p[k]
+		copy(p[k:], p[k+1:])
+		p[n-1] = v
+	case c < 1+3*(n-1): // swap neighbours k, k+1
+		k := c - (1 + 2*(n-1))
+		p[k], p[k+1] = p[k+1], p[k]
+	case c < 1+3*(n-1)+(n-2): // rotate left by k+2 (rotation by 1 is "move 0 to the back")
+		k := c - (1 + 3*(n-1)) + 2
+		for i := range p {
+			p[i] = (i + k) % n
+		}
+	default: // fixed pseudo-random permutations (linear congruential generator seeded by n and the index)
+		seed := uint64(n)*2654435761 + uint64(c)*40503 + 12345
+		for i := n - 1; i > 0; i-- {
+			seed = seed*6364136223846793005 + 1442695040888963407
+			j := int((seed >> 33) % uint64(i+1))
+			p[i], p[j] = p[j], p[i]
+		}
 	}
 	return p
 }
